@@ -234,3 +234,27 @@ func (c *choiceCasesResolver) GetSkipElements() []string {
 	}
 	return result
 }
+
+// getCaseElementNames returns the names of the elements that belong to the given case in a stable order.
+func (c *choiceCasesResolver) getCaseElementNames(caseName string) []string {
+	cas, exists := c.cases[caseName]
+	if !exists {
+		return nil
+	}
+	result := make([]string, 0, len(cas.elements))
+	for elemName := range cas.elements {
+		result = append(result, elemName)
+	}
+	slices.Sort(result)
+	return result
+}
+
+// isCaseElementPopulated returns true if a priority value was recorded for the given element of the given case.
+func (c *choiceCasesResolver) isCaseElementPopulated(caseName string, elemName string) bool {
+	cas, exists := c.cases[caseName]
+	if !exists {
+		return false
+	}
+	elem, exists := cas.elements[elemName]
+	return exists && elem.value != int32(math.MaxInt32)
+}
